@@ -367,12 +367,12 @@ Section SyslineReaderProofs.
     - intro H; injection H as <- <-. split; [exact I|]. split; [reflexivity|split; [repeat split|reflexivity]].
   Qed.
 
-  Lemma sr_find_line_ok st fo st' r : sr_inv st -> sr_find_line bs f st fo = (st', r) ->
+  Lemma sr_find_line_ok st acc fo st' r : sr_inv st -> sr_find_line bs f st acc fo = (st', r) ->
     sr_inv st' /\ lres_ok bs f fo r /\ frame st st' /\ s_lru st' = s_lru st.
   Proof.
-    intros I. unfold sr_find_line. destruct (c_find_line bs f (s_lr st) fo) as [[l r'] p] eqn:C.
+    intros I. unfold sr_find_line. destruct (c_find_line bs f _ fo) as [[l r'] p] eqn:C.
     intro H; injection H as <- <-.
-    destruct (c_find_line_ok bs f Hbs _ _ _ _ _ (si_lr _ I) C) as [L R].
+    destruct (c_find_line_ok bs f Hbs _ _ _ _ _ (lr_set_ext_inv bs f _ _ (si_lr _ I)) C) as [L R].
     split; [apply sr_inv_set_lr; assumption|]. split; [exact R|]. split; [repeat split|reflexivity].
   Qed.
 
@@ -448,8 +448,8 @@ Section SyslineReaderProofs.
     induction fuel as [|k IH]; intros st fo fo1 tried mx st' r I RG BP HD; cbn [c_loop_a loop_a].
     { intro H; injection H as <- <-. split; [exact I|]. split; [apply frame_refl|exact Logic.I]. }
     cbn [loop_a] in HD.
-    destruct (sr_find_line bs f st fo1) as [st1 r1] eqn:FL.
-    destruct (sr_find_line_ok _ _ _ _ I FL) as (I1 & R1 & F1 & _).
+    destruct (sr_find_line bs f st [] fo1) as [st1 r1] eqn:FL.
+    destruct (sr_find_line_ok _ _ _ _ _ I FL) as (I1 & R1 & F1 & _).
     destruct (lres_ok_pure _ _ R1) as [(L & s & ln & -> & PU & SIM & S)|(L & -> & PU)]; rewrite PU in *.
     2:{ intro H; injection H as <- <-. split.
         - apply sr_put_inv; [exact I1|]. cbn. apply HD. reflexivity.
@@ -509,8 +509,8 @@ Section SyslineReaderProofs.
   Proof.
     induction fuel as [|k IH]; intros st fo1 acc accp b0 st' r I C NE SIM; cbn [c_loop_b loop_b].
     { intro H; injection H as <- <-. split; [exact I|]. split; [apply frame_refl|]. split; [reflexivity|exact Logic.I]. }
-    destruct (sr_find_line bs f st fo1) as [st1 r1] eqn:FL.
-    destruct (sr_find_line_ok _ _ _ _ I FL) as (I1 & R1 & F1 & U1).
+    destruct (sr_find_line bs f st acc fo1) as [st1 r1] eqn:FL.
+    destruct (sr_find_line_ok _ _ _ _ _ I FL) as (I1 & R1 & F1 & U1).
     destruct (lres_ok_pure _ _ R1) as [(L & s & ln & -> & PU & SIMS & S)|(L & -> & PU)]; rewrite PU.
     2:{ intro H; injection H as <- <-. split; [exact I1|]. split; [exact F1|]. split; [exact U1|].
         cbn. split; [reflexivity|]. repeat split; assumption. }
